@@ -13,9 +13,19 @@ def main():
     import impl_b09
     import impl_img
     out = {}
+    shared = {}     # one options object per size map, owned by the caller and passed to every call
     for idx in job["order"]:
         c = job["cases"][idx]
-        if c["fmt"] == "b09":
+        if c["fmt"] == "b09" and job.get("share_configs") and c["opts"].get("sizes"):
+            from coco.b09 import compiler
+            from coco.b09.configs import CompilerConfigs, StringConfigs
+            key = json.dumps(c["opts"]["sizes"])
+            if key not in shared:
+                shared[key] = CompilerConfigs(string_configs=StringConfigs(strname_to_size=dict(c["opts"]["sizes"])))
+            kw = impl_b09.opts_to_kwargs(c["opts"])
+            kw["compiler_configs"] = shared[key]
+            res = impl_b09.outcome(lambda: compiler.convert(c["text"], **kw))
+        elif c["fmt"] == "b09":
             res = impl_b09.convert(c["text"], c["opts"])
         else:
             res = impl_img.run_request(c["req"])
